@@ -136,26 +136,38 @@ class Monitors:
             self.op_mark = len(sim.BROKER.oplog)
             # did this step append a *Failed history event (failure path of a fan-out)?
             failed_now = False
+            joined_now = False
             for arn_, h in list(inst.eng.execution_history.items()):
                 k0 = self.hist_mark.get(arn_, 0)
                 new_events = list(h)[k0:]
                 self.hist_mark[arn_] = len(h)
                 if any(("Failed" in e["type"] or "TimedOut" in e["type"]) for e in new_events):
                     failed_now = True
-            acked = None
+                if any(e["type"] in ("ParallelStateExited", "MapStateExited") for e in new_events):
+                    joined_now = True
+            acked = {}          # execution ARN -> first event acknowledged for it in this step
             for o in ops:
                 if o[0] == "multi-ack":
                     self.fail("C03 delivery %s acknowledged by a multiple-ack of another message" % (o[2],))
                 if o[0] == "ack" and o[1].startswith("ev"):
-                    acked = o
-                elif acked is not None and (o[0] == "broadcast" or (o[0] == "publish" and o[1].startswith("ev"))):
+                    acked.setdefault(o[3] if len(o) > 3 else None, o)
+                elif acked and (o[0] == "broadcast" or (o[0] == "publish" and o[1].startswith("ev"))):
+                    # consequences are attributed per execution: one step can complete a child execution and, from
+                    # inside the child's end_execution, resume and finish its parent (whose own event is then
+                    # acknowledged, rightly, before the child's terminal notification goes out)
+                    ex = o[2] if o[0] == "broadcast" else (o[4] if len(o) > 4 else None)
+                    a = acked.get(ex) if ex is not None else next(iter(acked.values()))
+                    if a is None and None in acked:
+                        a = acked[None]
+                    if a is None:
+                        continue
                     tag = ""
                     if self.had_join or inst.eng.branch_metadata:
-                        if o[0] == "broadcast":
-                            tag = "[join-end] "          # known finding: End:true fan-out acks before the terminal record
+                        if o[0] == "broadcast" or joined_now:
+                            tag = "[join-end] "          # known finding: a completed fan-out acks its held events before the terminal record / the successor of the enclosing join
                         elif failed_now:
                             tag = "[join-failure] "      # known finding: check_pending_results acks before retry/catch successor
-                    self.fail("C03 %sevent %s acknowledged before a consequence of the same handler was issued (%s %s)" % (tag, acked[2], o[0], o[1]))
+                    self.fail("C03 %sevent %s acknowledged before a consequence of the same handler was issued (%s %s)" % (tag, a[2], o[0], o[1]))
                     break
             self.had_join = bool(inst.eng.branch_metadata)
         # ---- C03: carrier -------------------------------------------------------
